@@ -79,6 +79,9 @@ def variants(case, seed, n):
              'split_seed': rng.randrange(1 << 32),
              'form_order': rng.randrange(1 << 32) if rng.chance(0.5) else None,
              'level': 'cli' if (not case['field_names'] and rng.chance(0.3)) else 'api'}
+        if v['level'] == 'api' and rng.chance(0.15):
+            # the InputStore has served another Solver before (an older version of the forms, in which one input was plain text)
+            v['prior'] = rng.randrange(1 << 32)
         out.append(v)
     return out
 
@@ -103,9 +106,29 @@ def run_variant(case, base_run, v):
         c2 = dict(case, sched=v['sched'], requested=req)
         run = simrun.execute_cli(c2, {'prompt': prompt, 'writeback': False, 'solution': False}, names=names, layout=layout)
     else:
+        store = None
+        if v.get('prior') is not None:
+            import copy
+            r = core.Rng(core.h64('prior', v['prior']))
+            alt = copy.deepcopy(case)
+            cands = [(fs_, i_) for fs_ in alt['world']['forms'] for i_ in fs_['inputs']
+                     if i_['type'] in ('bool', 'int', 'float', 'enum', 'enum_empty') and not i_.get('count')]
+            if cands:
+                fs_, i_ = r.pick(cands)
+                for k_ in [k_ for k_ in i_ if k_ != 'name']:
+                    del i_[k_]
+                i_['type'] = 'str'
+                for n_, p_ in alt['persona'].items():
+                    if n_.split('.')[0].split(':')[0] == fs_['name'] and n_.split('.')[1] == i_['name']:
+                        p_['typed'], p_['invalid'] = ['s', p_['text'].strip()], False
+            try:
+                first = simrun.execute(alt, sched=v['sched'], names=names, prompt=False, layout=layout, requested=req)
+                store = first.store
+            except (core.RunTimeout, core.BudgetExceeded):
+                store = None
         run = simrun.execute(case, sched=v['sched'], names=names, prompt=prompt,
                              refuse_at=(case['refuse_at'] if v['split'] == 'same' else None),
-                             layout=layout, requested=req)
+                             layout=layout, requested=req, store=store)
     return run
 
 
